@@ -113,10 +113,50 @@ def call_site_task():
     return Task(f"{PROP}.S.call_site", PROP, "FortranReader.__init__", run)
 
 
+def form_flag_task():
+    """Project._fortran_file decides the source form of a file: the `fixed` argument of FortranSourceFile is `extension in self.fixed_extensions` - membership in the list of
+    fixed-form extensions and nothing else (the list of free-form extensions also holds the preprocessed ones, F and FOR among them)"""
+    def run():
+        import ast
+        oid = f"{PROP}.S.Project._fortran_file.fixed_form_iff_the_extension_is_a_fixed_form_extension"
+        fn = loader.find_def("ford.fortran_project", "Project._fortran_file")
+        calls = [n for n in ast.walk(fn) if isinstance(n, ast.Call) and ast.unparse(n.func).endswith("FortranSourceFile")]
+        if len(calls) != 1:
+            return [OR(id=oid, status="unknown", kind="S", role="pre", backend="ast", target="ford.fortran_project.Project._fortran_file", detail=f"{len(calls)} FortranSourceFile constructions")]
+        c = calls[0]
+        arg = next((k.value for k in c.keywords if k.arg == "fixed"), c.args[3] if len(c.args) > 3 else None)
+        txt = ast.unparse(arg) if arg is not None else ""
+        ok = txt in ("extension in self.fixed_extensions", "extension in settings.fixed_extensions")
+        r = OR(id=oid, status=PROVED if ok else REFUTED, kind="S", role="pre", backend="ast", target="ford.fortran_project.Project._fortran_file",
+               desc=f"FortranSourceFile(..., fixed=`{txt}`, ...): the form of a file is fixed exactly when its extension is listed in fixed_extensions")
+        if not ok:
+            from bounded import c14
+            r.witness = {"fixed_argument": txt}
+            r.detail = "some files are read in the wrong source form"
+            r.replay = c14.form_by_extension()
+        return [r]
+    return Task(f"{PROP}.S.form_flag", PROP, "Project._fortran_file", run)
+
+
+def form_bd_task():
+    def run():
+        from bounded import c14
+        import time as _t
+        t0 = _t.time()
+        hit = c14.form_by_extension()
+        r = OR(id=f"{PROP}.Bd.project.form_by_extension", status=REFUTED if hit else PROVED, kind="Bd", role="bounded", target="ford.fortran_project.Project (real)",
+               desc="one fixed-form module per fixed extension (f, for, F, FOR) and one free-form module per free extension, default extension lists: every module is found",
+               bound="9 files", cases=9, seconds=_t.time() - t0, backend="enumeration")
+        if hit:
+            r.replay, r.witness = hit, hit["input"]
+        return [r]
+    return Task(f"{PROP}.Bd.form_by_extension", PROP, "real project", run)
+
+
 def build(tier, seed):
     set_tier(tier)
     from contracts import readerblocks
-    tasks = [a_task(PROP, _analyse), a_task(PROP, _ics), call_site_task(),
+    tasks = [a_task(PROP, _analyse), a_task(PROP, _ics), call_site_task(), form_flag_task(), form_bd_task(),
              Task(f"{PROP}.S.include", PROP, "FortranReader.include", lambda: readerblocks.include_forwards_configuration(PROP, names=("fixed", "length_limit"), replay=lambda: __import__("bounded.c14", fromlist=["x"]).included_fixed_form())),
              bounded_task(seed, tier)]
     meta = {
